@@ -12,9 +12,11 @@ from lib.driver import Ob, run_worker  # noqa: E402
 
 budget = int(sys.argv[1]) if len(sys.argv) > 1 else 60
 workers = int(sys.argv[2]) if len(sys.argv) > 2 else 14
+culture = sys.argv[3] if len(sys.argv) > 3 else 'en-us'
+LANG = {'en-us': 'English', 'es-es': 'Spanish', 'fr-fr': 'French', 'pt-br': 'Portuguese', 'zh-cn': 'Chinese', 'de-de': 'German', 'it-it': 'Italian', 'nl-nl': 'Dutch'}[culture]
 qs = []
 for f in ('DateTimeModel.json',):
-    for c in json.load(open('/repo/Specs/DateTime/English/' + f, encoding='utf-8-sig')):
+    for c in json.load(open('/repo/Specs/DateTime/%s/' % LANG + f, encoding='utf-8-sig')):
         q = c.get('Input')
         if isinstance(q, str) and q not in qs:
             qs.append(q)
@@ -23,7 +25,7 @@ ob = Ob('screen', 'sx', 'harness.apidt:h_wellformed', timeout=budget)
 
 def run(q):
     t = time.time()
-    r = run_worker('run', ob, {'q': q}, budget, budget + 60, {})
+    r = run_worker('run', ob, {'q': q, 'culture': culture}, budget, budget + 60, {})
     return q, r.get('state'), round(time.time() - t, 1), str(r.get('detail'))[:200]
 
 
@@ -34,5 +36,9 @@ with ThreadPoolExecutor(workers) as ex:
         if st not in ('discharged', 'inconclusive'):
             print(st, repr(q), det, flush=True)
 out.sort(key=lambda x: (x['wall'], x['q']))
-json.dump({'budget_s': budget, 'discharged': out, 'not_discharged': other}, open('/verif/harness/c11_inputs.json', 'w'), indent=0, ensure_ascii=False)
+name = '/verif/harness/c11_inputs.json' if culture == 'en-us' else '/verif/harness/c11_inputs_%s.json' % culture
+json.dump({'_comment': '%s DateTimeModel Specs inputs screened by tools/screen_c11.py (budget %d s); expected outputs of the corpus are not used' % (LANG, budget),
+           'budget_s': budget, 'discharged': [{'q': x['q'], 'wall': x['wall']} for x in out],
+           'counterexample': [x for x in other if x['state'] == 'counterexample'], 'slow': [x['q'] for x in other if x['state'] == 'inconclusive'],
+           'other': [x for x in other if x['state'] not in ('counterexample', 'inconclusive')]}, open(name, 'w'), indent=0, ensure_ascii=False)
 print('discharged', len(out), 'other', len(other))
